@@ -1156,6 +1156,37 @@ def special_impls(text, modpath, report):
     return apply_edits(text, edits)
 
 
+def mark_lemmas(text):
+    """`//@lemma props=..` + following proof fn  ->  /*@L spec::name props=..*/ <fn item> /*@E*/"""
+    out = []
+    pos = 0
+    for m in re.finditer(r'//@lemma props=(\S+)\n', text):
+        out.append(text[pos:m.start()])
+        rest = text[m.end():]
+        mm = re.match(r'\s*(?:#\[[^\]]*\]\s*)*pub (?:broadcast )?proof fn (\w+)', rest)
+        if not mm:
+            raise GenError('//@lemma marker not followed by a proof fn near: %r' % rest[:60])
+        toks = lex(rest)
+        k = 0
+        while not (toks[k].kind == 'punct' and toks[k].text == '{' and _depth0(toks, k)):
+            k += 1
+        end = toks[match_close(toks, k)].end
+        out.append('/*@L spec::%s props=%s*/\n%s\n/*@E*/' % (mm.group(1), m.group(1), rest[:end]))
+        pos = m.end() + end
+    out.append(text[pos:])
+    return ''.join(out)
+
+
+def _depth0(toks, k):
+    d = 0
+    for t in toks[:k]:
+        if t.kind == 'punct' and t.text in '([':
+            d += 1
+        elif t.kind == 'punct' and t.text in ')]':
+            d -= 1
+    return d == 0
+
+
 def cargo_env():
     txt = open(os.path.join(REPO, 'Cargo.toml')).read()
     name = re.search(r'^\s*name\s*=\s*"([^"]+)"', txt, re.M).group(1)
@@ -1211,6 +1242,7 @@ def generate(mode, out_path):
     tops = [m for m, _ in mods if '::' not in m]
     shim = read_dir_rs(os.path.join(VERIF, 'shim'))
     spec = read_dir_rs(os.path.join(VERIF, 'spec'))
+    spec = mark_lemmas(spec)
     strict_def = 'pub open spec fn strict() -> bool { %s }\n' % ('true' if mode == 'strict' else 'false')
     out = (HEAD + 'pub mod shim {\n' + strict_def + shim + '\n}\n'
            + 'pub mod spec {\n' + MOD_PRELUDE.replace('#[allow(unused_imports)] use crate::spec::*;\n', '')
